@@ -97,25 +97,63 @@ def queries(ctx, plant, case, res, where):
                 ctx.count("export_rejected", core.error_class(e))
 
 
+def same_configurations_other_times(rng, breaker):
+    """A breaker series that passes through the same sequence of configurations as `breaker` (rows = breakers) but
+    switches at other points of the series, possibly of another length. None when the series never switches."""
+    if not breaker or len(breaker[0]) < 2:
+        return None
+    cols = [tuple(row[t] for row in breaker) for t in range(len(breaker[0]))]
+    seq = [c for t, c in enumerate(cols) if t == 0 or c != cols[t - 1]]
+    if len(seq) < 2:
+        return None
+    old_runs = [sum(1 for _ in g) for g in _runs(cols)]
+    for _ in range(20):
+        n_new = len(seq) + int(rng.integers(0, 4))
+        cuts = sorted(int(x) for x in rng.choice(range(1, n_new), size=len(seq) - 1, replace=False)) if n_new > 1 else []
+        runs = [b - a for a, b in zip([0] + cuts, cuts + [n_new])]
+        if runs != old_runs:
+            break
+    new_cols = [c for c, r in zip(seq, runs) for _ in range(r)]
+    return [[bool(col[i]) for col in new_cols] for i in range(len(breaker))]
+
+
+def _runs(cols):
+    out, cur = [], []
+    for c in cols:
+        if cur and c != cur[-1]:
+            out.append(cur)
+            cur = []
+        cur.append(c)
+    if cur:
+        out.append(cur)
+    return out
+
+
 def gen_history(rng, idx):
     kind = str(rng.choice(["electric", "electric", "mechanical", "hybrid", "mech_elec"]))
     base = R.gen_plant_case(rng, idx, kind=kind)
     calcs = [base["inputs"]]
     for _ in range(int(rng.integers(1, 4))):
         nxt = R.gen_plant_case(rng, idx, kind=kind)         # only to draw input shapes; re-draw inputs for the SAME spec
+        # the same breaker configurations in the same order as the calculation before, switched at other times
+        shifted = same_configurations_other_times(rng, calcs[-1].get("breaker")) if (kind != "mechanical" and rng.random() < 0.35) else None
+        n_forced = None if shifted is None else len(shifted[0])
         if kind == "electric":
-            inp = E.gen_inputs(rng, base["spec"], capacity_ok=True)
+            inp = E.gen_inputs(rng, base["spec"], n=n_forced, capacity_ok=True)
         elif kind == "mechanical":
             inp = M.gen_inputs(rng, base["spec"], engines_ok=True)
         else:
-            ein = E.gen_inputs(rng, base["spec"], capacity_ok=True)
+            ein = E.gen_inputs(rng, base["spec"], n=n_forced, capacity_ok=True)
             mi = M.gen_inputs(rng, base["spec"], n=ein["n"], engines_ok=True)
             for c in base["spec"]["electric"]:
                 if c["kind"] == "pti_pto":
                     ein["comp"][c["name"]]["mode"] = [1.0] * ein["n"]
                     ein["comp"][c["name"]]["status"] = [True] * ein["n"]
             inp = {"n": ein["n"], "dt": ein["dt"], "breaker": ein["breaker"], "comp": ein["comp"], "mech": mi["comp"]}
-        if rng.random() < 0.3:
+        if shifted is not None:
+            inp["breaker"] = shifted
+            inp["shifted_breakers"] = True
+        elif rng.random() < 0.3:
             inp = copy.deepcopy(calcs[-1])                # the same calculation again
         calcs.append(inp)
     return {"idx": idx, "kind": kind, "spec": base["spec"], "calcs": calcs, "query_between": [bool(rng.random() < 0.6) for _ in calcs]}
@@ -125,6 +163,7 @@ def run_history(ctx, hist, model=True):
     where = {"case": hist}
     ctx.count("plant", hist["kind"])
     ctx.count("calculations", len(hist["calcs"]))
+    ctx.count("same_breaker_configurations_other_times", any(c.get("shifted_breakers") for c in hist["calcs"]))
     try:
         plant = plants.Plant(hist["spec"])
     except Exception as e:
